@@ -43,7 +43,7 @@ var permitSpec = core.ResourceSpec{
 func c16(c *Ctx) {
 	p, r := c.P, c.R
 	r.Technique = "typestate (path search over go/ssa with defer/closure/flag/channel-handoff modelling) for every permit from acquisition to every exit, with per-function ownership summaries"
-	r.Explanation = "Decides that every transfer slot (Permit) obtained from the uTP controller is released or handed off on every control-flow exit: (R1) acquisition sites are the call sites of the functions wrapping semaphore.TryAcquire; (R2) from each acquisition, and in every function that takes ownership of a permit (parameter, captured variable, queue element), every path to every exit passes a Release, a deferred Release (including the flag-guarded deferred closure, evaluated with the flag's constant-propagated value per exit), a hand-off to a function/goroutine that itself discharges it, or a successful channel send of the carrier (the non-blocking select's default edge does not count); receivers of that channel are then obligated; (R3) the release action runs only under a successful compare-and-swap, semaphore.Release is called only from the actions built next to the matching TryAcquire with the same weight; (R4) the no-op permit is constructed only by the acquisition wrappers and the operator RPC entry points; (R5) every uTP call that waits for the peer (accept, dial, read-to-EOF, write) is given a context made by context.WithTimeout/WithDeadline, so a holder reaches its release when the peer stays silent; (R6) the fields that hold the semaphores and their holder are assigned only while their owner is being built (the limiter is never replaced while permits are out). Not decided: peak concurrency as a number; behaviour of uTP timeouts; slots held by requests still queued at shutdown (observation)."
+	r.Explanation = "Decides that every transfer slot (Permit) obtained from the uTP controller is released or handed off on every control-flow exit: (R1) acquisition sites are the call sites of the functions wrapping semaphore.TryAcquire; (R2) from each acquisition, and in every function that takes ownership of a permit (parameter, captured variable, queue element), every path to every exit passes a Release, a deferred Release (including the flag-guarded deferred closure, evaluated with the flag's constant-propagated value per exit), a hand-off to a function/goroutine that itself discharges it, or a successful channel send of the carrier (the non-blocking select's default edge does not count); receivers of that channel are then obligated; (R3) the release action runs only under a successful compare-and-swap, semaphore.Release is called only from the actions built next to the matching TryAcquire with the same weight; (R4) the no-op permit is constructed only by the acquisition wrappers and the operator RPC entry points; (R5) every uTP call that waits for the peer (accept, dial, read-to-EOF, write) is given a context made by context.WithTimeout/WithDeadline, so a holder reaches its release when the peer stays silent; (R6) the fields that hold the semaphores and their holder are assigned only while their owner is being built (the limiter is never replaced while permits are out) and the semaphore holder is created only where the shared uTP transport service is built (one limiter per socket, not per sub-network). Not decided: peak concurrency as a number; behaviour of uTP timeouts; slots held by requests still queued at shutdown (observation)."
 	r.Assumptions = []string{"golang.org/x/sync/semaphore is correct", "goroutines started with a permit run to one of their exits once their uTP waits time out (R5 checks that every wait has a deadline)", "panics are not exits"}
 	r.Floor("R1.acquire-site", 2)
 	r.Floor("R2.discharge", 4)
@@ -514,6 +514,34 @@ func c16(c *Ctx) {
 					r.Check(bad == "", "R6.limiter-fixed", name+"."+f.Name(), "-", "assigned only while its owner is being built", "the limiter is replaced after construction ("+bad+"): the new one starts fully free while permits taken from the old one are still out and will be released into the orphan, so more transfers than the limit run at once")
 				}
 			}
+		}
+		// one limiter per uTP socket: the limit is a number for the whole node, and all
+		// sub-networks share one transport service. A limiter per sub-network lets k networks run
+		// k times the limit over the one socket.
+		{
+			nNew := 0
+			for _, fn := range p.ModuleFuncs() {
+				if len(core.CallsTo(fn, "golang.org/x/sync/semaphore.NewWeighted")) == 0 {
+					continue
+				}
+				for cf, css := range p.CallersOfFn(fn) {
+					for _, cs := range css {
+						nNew++
+						ownsSocket := false
+						for _, b := range cf.Blocks {
+							for _, in := range b.Instrs {
+								if al, isAl := in.(*ssa.Alloc); isAl {
+									if pt, isP := al.Type().(*types.Pointer); isP && core.TypeName(pt.Elem()) == "UtpTransportService" {
+										ownsSocket = true
+									}
+								}
+							}
+						}
+						r.Check(ownsSocket, "R6.limiter-fixed", core.FuncName(cf)+" limiter-per-socket", p.Pos(cs.Pos()), "the limiter is created where the shared uTP transport service is built", "a limiter is created outside the constructor of the shared uTP transport service (e.g. one per sub-network): the configured limit then bounds each of them separately and the node as a whole runs a multiple of it over one socket")
+					}
+				}
+			}
+			r.Check(nNew >= 1, "R6.limiter-fixed", "limiter constructions", "-", fmt.Sprintf("%d construction site(s) inspected", nNew), "no construction of the semaphore holder found")
 		}
 		r.Check(nF >= 2, "R6.limiter-fixed", "limiter fields", "-", fmt.Sprintf("%d fields holding a semaphore (or its holder) inspected", nF), fmt.Sprintf("only %d limiter fields found", nF))
 	}
